@@ -71,12 +71,20 @@ Definition sobs_eqb (a b : sobs) : bool :=
   list_eqb n2_eqb (o_tcpmap a) (o_tcpmap b) &&
   list_eqb N.eqb (o_tcpcrt a) (o_tcpcrt b).
 
+(* a file without any section loads nothing: it does not count when comparing what is loaded *)
+Definition drop_empty (o : sobs) : sobs :=
+  {| o_err := o_err o; o_reload := o_reload o; o_runeq := o_runeq o;
+     o_files := filter (fun f => match snd f with [] => false | _ => true end) (o_files o);
+     o_def := o_def o; o_glob := o_glob o; o_crt := o_crt o; o_hostmap := o_hostmap o;
+     o_rootredir := o_rootredir o; o_rootssl := o_rootssl o; o_backmaps := o_backmaps o;
+     o_tcpmap := o_tcpmap o; o_tcpcrt := o_tcpcrt o |}.
+
 (* the running haproxy against the files: same projection *)
 Definition run_matches (e : env) (s : inst) : bool :=
   match i_running s with
   | Some r =>
     let sr := {| i_cfg := i_cfg s; i_disk := r; i_failed := i_failed s; i_running := None; i_pending := false |} in
-    sobs_eqb (observe e sr false false false) (observe e s false false false)
+    sobs_eqb (drop_empty (observe e sr false false false)) (drop_empty (observe e s false false false))
   | None => false
   end.
 
